@@ -3,6 +3,7 @@
    (optimiser, scheduler, thread interleavings, float summation order) is not modelled. *)
 From Coq Require Import String ZArith List Bool.
 From XV Require Import Base.Scalar Base.Sum Gen.T7lazy Gen.T3 Model.Lazy Proofs.C12_proofs Proofs.C15_opts.
+From XV Require Gen.T8fwd Proofs.Fwd_tie.
 Import ListNotations.
 
 (* the table of force points is regenerated from the source on every run; with compute = False and
@@ -53,3 +54,18 @@ Theorem C12_compute_dependent_option_refuted :
   opt_independent_of_compute ("default", "n_power_iter", "4 if solver_kwargs['compute'] else 0")%string = false.
 Proof. exact compute_dependent_option_refuted. Qed.
 Print Assumptions C12_compute_dependent_option_refuted.
+
+(* the decomposition steps a model runs inside itself (pre-reduction of ExtendedEOF, OPA, POP, the cross-set models) are built with the model's
+   `compute` and do not scan for NaN on their own: with compute = False and check_nans = False nothing inside them forces the data *)
+Theorem C12_inner_steps_stay_lazy :
+  Fwd_tie.obj_kw "ExtendedEOF" "__init__" "EOF" "check_nans" = ["False"%string] /\ Fwd_tie.obj_kw "ExtendedEOF" "_fit_algorithm" "EOF" "check_nans" = ["False"%string] /\
+  Fwd_tie.obj_kw "OPA" "_fit_algorithm" "EOF" "check_nans" = ["False"%string] /\
+  Fwd_tie.obj_kw "ExtendedEOF" "__init__" "EOF" "compute" = ["self._params['compute']"%string] /\
+  Fwd_tie.obj_kw "ExtendedEOF" "_fit_algorithm" "EOF" "compute" = ["self._params['compute']"%string] /\
+  Fwd_tie.obj_kw "OPA" "_fit_algorithm" "EOF" "compute" = ["self._params['compute']"%string] /\
+  Fwd_tie.obj_kw "OPA" "_fit_algorithm" "Decomposer" "compute" = ["self._params['compute']"%string] /\
+  Fwd_tie.obj_kw "POP" "__init__" "PCA" "compute_eagerly" = ["compute"%string] /\ Fwd_tie.obj_kw "PCA" "fit" "SVD" "compute" = ["self.compute_eagerly"%string] /\
+  Fwd_tie.obj_kw "BaseModelCrossSet" "__init__" "Preprocessor" "compute" = ["compute"%string; "compute"%string] /\
+  Fwd_tie.obj_kw "BaseModelSingleSet" "__init__" "Preprocessor" "compute" = ["compute"%string].
+Proof. exact Fwd_tie.inner_steps_stay_lazy. Qed.
+Print Assumptions C12_inner_steps_stay_lazy.
